@@ -579,8 +579,7 @@ class SourceHandler:
             file_size = self.user.vfs.file_size(self._put_req.source_file)
             if file_size == 0:
                 self._params.fp.empty_file = True
-            else:
-                self._params.fp.file_size = file_size
+            self._params.fp.file_size = file_size
 
     def _prepare_pdu_conf(self, file_size: int) -> None:
         # Please note that the transmission mode and closure requested field were set in
